@@ -16,7 +16,9 @@ LEVEL = "exploration"
 RULE = (
     "Inputs: corpus structure files (13 quick incl. quadruplexes with base multiplets, all parseable ones thorough), "
     "Hypothesis-drawn secondary structures with >=2 knotted components (40 quick / 400 thorough) and Hypothesis-drawn "
-    "pair lists with multiplets/conflicts/duplicates mapped onto small corpus structures (24 quick / 400 thorough). For each input a FRESH interpreter per "
+    "pair lists with multiplets/conflicts/duplicates mapped onto small corpus structures (24 quick / 400 thorough), and "
+    "corpus structures re-emitted (PDB or mmCIF) with drawn residues renamed to non-standard names and thinned of drawn "
+    "base atoms, so that name guessing and its ties are exercised (24 quick / 480 thorough). For each input a FRESH interpreter per "
     "PYTHONHASHSEED (quick: 0, 1, 2 and one VERIF_SEED-derived value; thorough: 0, 1, 2, 3, 42, 12345, 2**32-1 and "
     "one derived value) computes SHA-256 of every artefact twice in-process: interaction lists, write_json bytes, "
     "write_csv bytes, BPSEQ, dot-bracket, extended dot-bracket, the ORDERED list of all dot-brackets (BpSeq and "
@@ -168,6 +170,61 @@ def collect_mapping_cases(n, seed):
     return got
 
 
+VARIANT_FILES = ["1ATO.pdb", "1HMH_1_E.cif", "1E7K_1_C.cif", "1A1T_1_B.cif", "4WTI_1_T-P.cif", "1DFU_1_M-N.cif"]
+ODD_RESNAMES = ["XYZ", "PYO", "0MX", "B8H", "UNK", "6MZ", "M2G", "PSU", "5MC", "H2U", "1MA", "N"]
+DROP_ATOMS = ["N4", "O4", "N6", "O6", "N2", "N7", "C8", "N9", "O2", "C5", "C6", "C2", "N3", "C4", "N1", "C1'", "O2'"]
+
+
+def collect_variants(n, seed):
+    """corpus structures re-emitted by the harness with drawn residues renamed to non-standard names and thinned of
+    drawn base atoms: inputs on which the library has to GUESS (one-letter names, missing-atom fallbacks) and where
+    ties between equally good guesses occur"""
+    import hypothesis
+    from hypothesis import HealthCheck, Phase, given, settings, strategies as st
+    from rnaverif import atomtab, corpus
+    from rnaverif.props import c05
+
+    files = [f for f in VARIANT_FILES if os.path.exists(os.path.join(REPO, "tests", f))]
+    tables = {}
+    for f in files:
+        t = c05.table_from_structure(corpus.structure(f))
+        if t:
+            tables[f] = t
+    if not tables:
+        raise HarnessError("no corpus file can be re-emitted for C14 variants")
+    mod = st.tuples(st.integers(0, 400), st.sampled_from(ODD_RESNAMES), st.lists(st.sampled_from(DROP_ATOMS), max_size=5, unique=True))
+    strat = st.fixed_dictionaries({"file": st.sampled_from(sorted(tables)), "ext": st.sampled_from(["pdb", "cif"]),
+                                   "mods": st.lists(mod, min_size=1, max_size=5)})
+    got = []
+
+    @hypothesis.seed(seed)
+    @settings(max_examples=n, database=None, deadline=None, suppress_health_check=list(HealthCheck), phases=[Phase.generate])
+    @given(strat)
+    def collect(c):
+        got.append(c)
+
+    collect()
+    out = []
+    for c in got:
+        atoms = [dict(a) for a in tables[c["file"]]]
+        order = []
+        for a in atoms:
+            k = (a["chain"], a["resseq"], a["icode"])
+            if k not in order:
+                order.append(k)
+        for idx, resname, drop in c["mods"]:
+            key = order[idx % len(order)]
+            atoms = [a for a in atoms if not ((a["chain"], a["resseq"], a["icode"]) == key and a["name"] in drop)]
+            for a in atoms:
+                if (a["chain"], a["resseq"], a["icode"]) == key:
+                    a["resname"] = resname
+        for k, a in enumerate(atoms):
+            a["serial"] = k + 1
+        text = atomtab.emit_pdb(atoms) if c["ext"] == "pdb" else atomtab.emit_cif(atoms)
+        out.append((c, text))
+    return out
+
+
 def plan(tier, seed):
     specs = []
     if tier == "quick":
@@ -184,6 +241,9 @@ def plan(tier, seed):
     nmap, mbatch = (24, 12) if tier == "quick" else (400, 25)
     for k in range(nmap // mbatch):
         specs.append({"kind": "mapping", "n": mbatch, "gen_seed": seed * 1000 + 500 + k, "tier": tier, "seed": seed})
+    nvar, vbatch = (24, 6) if tier == "quick" else (480, 20)
+    for k in range(nvar // vbatch):
+        specs.append({"kind": "variant", "n": vbatch, "gen_seed": seed * 1000 + 700 + k, "tier": tier, "seed": seed})
     return specs
 
 
@@ -195,6 +255,10 @@ def run_shard(spec) -> ShardResult:
         inp = {"id": spec["file"], "kind": "file", "path": os.path.join(REPO, "tests", spec["file"])}
         inputs = [inp]
         tag = "f" + spec["file"].replace(".", "_")
+    elif spec["kind"] == "variant":
+        vs = collect_variants(spec["n"], spec["gen_seed"])
+        inputs = [{"id": f"v{spec['gen_seed']}_{k}", "kind": "filetext", "ext": c["ext"], "text": text, "variant": c} for k, (c, text) in enumerate(vs)]
+        tag = f"v{spec['gen_seed']}"
     elif spec["kind"] == "mapping":
         cases = collect_mapping_cases(spec["n"], spec["gen_seed"])
         inputs = [{"id": f"m{spec['gen_seed']}_{k}", "kind": "mapping", "case": c} for k, c in enumerate(cases)]
@@ -212,6 +276,10 @@ def run_shard(spec) -> ShardResult:
             nt = m.get("n_all", 0) >= 2 or (m.get("n_bp", 0) >= 1 and m.get("n_st", 0) >= 1 and m.get("n_bphbr", 0) >= 1)
             labs = ["file"] + (["all_dot_brackets>=2"] if m.get("n_all", 0) >= 2 else [])
             cj = {"file": spec["file"], **m}
+        elif inp["kind"] == "filetext":
+            nt = m.get("n_bp", 0) >= 1 and m.get("n_st", 0) >= 1
+            labs = ["corpus-variant-with-nonstandard-residues", "variant-" + inp["ext"]]
+            cj = {"variant": inp["variant"], **m}
         elif inp["kind"] == "mapping":
             ents = inp["case"].get("entries", [])
             nt = len(ents) >= 3
@@ -233,10 +301,10 @@ def run_shard(spec) -> ShardResult:
                 art = d.sig.split(":")[1]
                 other = int(what.split(" vs ")[1].split()[0])
                 try:
-                    what += "; " + explain({k: v for k, v in inp.items() if k in ("id", "kind", "path", "text", "case")}, art, [seeds[0], other])
+                    what += "; " + explain({k: v for k, v in inp.items() if k in ("id", "kind", "path", "text", "case", "ext")}, art, [seeds[0], other])
                 except Exception:
                     pass
-            case = {"input": {k: v for k, v in inp.items() if k in ("id", "kind", "text", "seq", "pairs", "case")}, "seeds": seeds}
+            case = {"input": {k: v for k, v in inp.items() if k in ("id", "kind", "text", "seq", "pairs", "case", "ext", "variant")}, "seeds": seeds}
             if inp["kind"] == "file":
                 case["input"]["file"] = spec["file"]
             res.failures.append({"sig": d.sig, "what": what, "case": case})
